@@ -12,7 +12,7 @@ from pyvc.runner import Lemma, Bounded
 from pyvc.lib import numpy_ as npm
 from pyvc.lib import torch_ as tm
 from pyvc.lib import c18_models as lm
-from .common import registry, ceil_div, zmin, zmax, forall, implies, AND, OR, NOT, opt_int
+from .common import registry, ceil_div, zmin, zmax, forall, implies, AND, OR, NOT, opt_int, frame_snapshot, frame_clauses
 
 import numpy as np
 import torch
@@ -113,6 +113,22 @@ def pattern_of(fn, lead, p):
 def arange_arr(n):
     nt = lift(n)
     return npm.index_array(n, lambda i: Sym(i), lambda v: z3.And(lift(v) >= 0, lift(v) < nt), lambda v: lift(v), name="arange")
+
+
+def unwritten_in_loop(s, key, arrays):
+    """Loop-invariant clause "the body does not write these arrays", robust against the engine's automatic havoc (which bumps the
+    write counter of an array the body stores into BEFORE the invariant is assumed - a clause comparing against the entry
+    counter would then be assumed false and the loop would silently vanish).  Entry: unwritten since the setup; arbitrary
+    iteration: the counters at the START of the iteration are recorded, after the body they must be the same."""
+    ws = tuple(a.writes for a in arrays if a is not None)
+    book = s.ctx.ghost.setdefault("c18_loop_writes", {})
+    kt = z3.simplify(lift(s.k))
+    if z3.is_int_value(kt):
+        return all(w == 0 for w in ws)
+    if z3.is_const(kt):  # the havocked iteration counter k: the invariant is being ASSUMED
+        book[key] = ws
+        return True
+    return book.get(key) == ws  # k + 1: after the body
 
 
 def havoc_array(ctx, a, name):
@@ -307,6 +323,60 @@ def com_model(ctx, measured=False, fitted=False):
     return me, g
 
 
+def model_view(me):
+    """The ghost description (tensor, scan axes, detector extents, stored origins) of a model object met at a CALL SITE."""
+    f = me.fields
+    T = f["_tensor"]
+    om, of = f.get("_origin_measured"), f.get("_origin_fitted")
+    return NS(T=T, Tfn=T.fn, lead=tuple(T.shape[:-2]), H=T.shape[-2], W=T.shape[-1], N=f["num_dps"], om=om, of=of,
+              omfn=om.fn if isinstance(om, SymArr) else None, offn=of.fn if isinstance(of, SymArr) else None, me=me)
+
+
+def com_array(g):
+    """The (num_dps, 2) array of the property statement: row p = (sum I*row / sum I, sum I*col / sum I) of pattern p."""
+    def fn(p, c):
+        sr, sc = com_spec(pattern_of(g.Tfn, g.lead, p), g.H, g.W)
+        return V.ite(lift(c) == 0, Sym(sr), Sym(sc))
+    a = SymArr((g.N, 2), fn, "real")
+    a.as_type = torch.Tensor
+    return a
+
+
+def add_stale_state(ctx, me, g, names):
+    """History pre-state: forks on "earlier workflow steps already ran on this object", in which case the named fields already
+    hold ARBITRARY OTHER values (not None).  What a method recomputes must come from this call, what it only reads must survive."""
+    from pyvc.interp import _value_signature
+
+    if ctx.branch(ctx.fresh("earlier_workflow_steps_already_ran", "bool").t):
+        for n in names:
+            if n in ("_origin_measured", "_origin_fitted"):
+                a = ctx.fresh_arr("stale" + n, (g.N, 2), "real")
+                a.as_type = torch.Tensor
+            elif n == "_shifted_tensor":
+                a = ctx.fresh_arr("stale_shifted_tensor", tuple(g.T.shape), "real")
+                a.as_type = torch.Tensor
+            elif n == "_detector_transpose":
+                a = ctx.fresh("stale_detector_transpose", "bool")
+            else:
+                a = ctx.fresh("stale" + n, "real")
+            me.fields[n] = a
+        g.case += ",re-run"
+    g.snap0 = {k: (v, _value_signature(v)) for k, v in me.fields.items()}
+
+
+def stored_state_frame(me, g, recomputed):
+    """One clause per stored field the method does NOT recompute: same object, never written (views of it included)."""
+    from pyvc.interp import _value_signature
+
+    f = me.fields
+    out = [("frame:no-stored-field-appears-or-disappears-except-" + "/".join(sorted(recomputed)), set(f) - set(recomputed) == set(g.snap0) - set(recomputed))]
+    for k, (v, sig) in g.snap0.items():
+        if k in recomputed or k.startswith("$"):
+            continue
+        out.append((f"frame:stored-{k}-is-kept-and-not-written", k in f and f[k] is v and _value_signature(f[k]) == sig))
+    return out
+
+
 # ---- origin setters: value.view(-1, 2).expand(num_dps, 2)
 
 
@@ -397,6 +467,7 @@ C_SET_FITTED = oset_contract("origin_fitted")
 
 def co_setup(ctx):
     me, g = com_model(ctx)
+    add_stale_state(ctx, me, g, ["_origin_measured", "_origin_fitted", "_shifted_tensor", "_detector_transpose", "_detector_rotation_deg"])
     return NS(self=me, max_batch_size=opt_int(ctx, "max_batch_size"), g=g, case=g.case)
 
 
@@ -421,7 +492,7 @@ def co_loop_inv(s):
     sr, sc = co_spec(g, p)
     return [
         ("rows-below-min(kB,N)-hold-the-CoM", forall(p, implies(AND(p >= 0, p < done), AND(lift(com.fn(p, z3.IntVal(0))) == sr, lift(com.fn(p, z3.IntVal(1))) == sc)))),
-        ("frame:tensor-not-written", g.T.writes == 0 and g.A.writes == 0),
+        ("frame:tensor-not-written", unwritten_in_loop(s, "calc", [g.T, g.A])),
     ]
 
 
@@ -432,7 +503,13 @@ def co_after(s):
     s.ctx.prove("loop-exit:all-rows-done:min(kB,N)=N", zmin(lift(s.k) * B, lift(g.N)) == lift(g.N), kind="hint")
 
 
+def co_modifies(ctx, s):
+    s.self.fields["_origin_measured"] = com_array(model_view(s.self))  # exactly the array the postcondition describes
+
+
 def co_ensures(s):
+    if s.mode == "apply":
+        return []
     g = s.g
     f = s.self.fields
     om = f["_origin_measured"]
@@ -446,13 +523,16 @@ def co_ensures(s):
         ("origin_measured[p,1]=sum(I*col)/sum(I)", forall(p, implies(inr, lift(om.fn(p, z3.IntVal(1))) == sc))),
         ("returns-self", s.result is s.self),
         ("frame:tensor-and-dataset-not-written", g.T.writes == 0 and g.A.writes == 0 and f["_tensor"] is g.T and f["_dataset"] is g.ds),
-        ("frame:fitted-origin-and-shifted-tensor-untouched", f["_origin_fitted"] is None and f["_shifted_tensor"] is None),
-    ]
+    ] + stored_state_frame(s.self, g, {"_origin_measured"})
 
 
 C_CALC = Contract(
     f"{OM}:CenterOfMassOriginModel.calculate_origin", setup=co_setup, requires=co_requires, ensures=co_ensures,
-    loops={0: LoopSpec(inv=co_loop_inv, after=co_after, havoc={"com_measured": lambda s: havoc_array(s.ctx, s.com_measured, "com_measured")})},
+    modifies=co_modifies, result=lambda ctx, s: s.self,
+    loops={0: LoopSpec(inv=co_loop_inv, after=co_after, havoc={
+        "com_measured": lambda s: havoc_array(s.ctx, s.com_measured, "com_measured"),
+        # kept, not havocked: `frame:tensor-not-written` is part of the invariant
+        "tensor_3d": lambda s: None, "self._tensor": lambda s: None})},
 )
 
 
@@ -682,7 +762,7 @@ def sic_loop_inv(s):
     return [
         (f"{tag}com_measured_r[r*,c*]=sum(I*row)/sum(I)-once-visited", implies(passed, lift(s.com_measured_r.fn(r, c)) == sr)),
         (f"{tag}com_measured_c[r*,c*]=sum(I*col)/sum(I)-once-visited", implies(passed, lift(s.com_measured_c.fn(r, c)) == scol)),
-        (f"{tag}frame:caller's-intensities-and-mask-not-written", g.inten.writes == 0 and (g.mask is None or g.mask.writes == 0)),
+        (f"{tag}frame:caller's-intensities-and-mask-not-written", unwritten_in_loop(s, "sic", [g.inten, g.mask])),
     ]
 
 
@@ -779,12 +859,35 @@ def fb_setup(ctx):
         pp.as_type = torch.Tensor
     g.pp = pp
     fm = "constant" if ctx.branch(ctx.fresh("fit_method_is_constant", "bool").t) else "bogus"
+    add_stale_state(ctx, me, g, ["_origin_fitted", "_shifted_tensor", "_detector_transpose", "_detector_rotation_deg"])
     g.fields0 = dict(me.fields)
     return NS(self=me, probe_positions=pp, fit_method=fm, g=g, case=f"{g.case},measured:{kind},{'positions' if pp is not None else 'no-positions'},{fm}")
 
 
+def _fb_g(s):
+    g = s.get("g")
+    if g is None:  # call site
+        g = model_view(s.self)
+        g.pp = s.probe_positions if isinstance(s.probe_positions, SymArr) else None
+        if s.probe_positions is not None and g.pp is None:
+            raise V.OutOfSubset("fit_origin_background called with concrete probe positions")
+    return g
+
+
+def fb_modifies(ctx, s):
+    g = model_view(s.self)
+    if s.fit_method == "constant":
+        mean = lm.reduce_mean(SymArr((g.N, 2), g.omfn, "real"), 0)
+        mf = mean.fn
+        new = SymArr((g.N, 2), lambda p, c: mf(c), "real")
+    else:  # 'plane': some (num_dps, 2) surface - its values are outside the deductive reach (bounded stand-in)
+        new = ctx.fresh_arr("origin_fitted_plane", (g.N, 2), "real")
+    new.as_type = torch.Tensor
+    s.self.fields["_origin_fitted"] = new
+
+
 def fb_value_error(s):
-    g = s.g
+    g = _fb_g(s)
     if g.om is None:
         return True
     if g.pp is None:
@@ -803,6 +906,8 @@ def fb_not_implemented(s):
 
 
 def fb_ensures(s):
+    if s.mode == "apply":
+        return []
     g = s.g
     f = s.self.fields
     of = f["_origin_fitted"]
@@ -817,7 +922,7 @@ def fb_ensures(s):
         ("returns-self", s.result is s.self),
         ("frame:only-_origin_fitted-changed", set(f) == set(g.fields0) and all(f[k] is g.fields0[k] for k in g.fields0 if k != "_origin_fitted")),
         ("frame:measured-origins/tensor/positions-not-written", g.om.writes == 0 and g.T.writes == 0 and (g.pp is None or g.pp.writes == 0)),
-    ]
+    ] + stored_state_frame(s.self, g, {"_origin_fitted"})
     if g.const is not None:
         v0, v1 = g.const
         out.append(("constant-measured-origins=>fit-returns-that-constant",
@@ -826,6 +931,7 @@ def fb_ensures(s):
 
 
 C_FITBG = Contract(f"{OM}:CenterOfMassOriginModel.fit_origin_background", setup=fb_setup, ensures=fb_ensures,
+                   modifies=fb_modifies, result=lambda ctx, s: s.self,
                    raises={ValueError: fb_value_error, NotImplementedError: fb_not_implemented})
 
 # ------------------------------------------------------------------------------------------------
@@ -833,8 +939,9 @@ C_FITBG = Contract(f"{OM}:CenterOfMassOriginModel.fit_origin_background", setup=
 # ------------------------------------------------------------------------------------------------
 
 
-def so_setup(ctx):
+def so_setup(ctx, weak=False):
     me, g = com_model(ctx)
+    g.weak = weak
     N = g.N
     if ctx.branch(ctx.fresh("origin_fitted_is_set", "bool").t):
         of = ctx.fresh_arr("origin_fitted", (N, 2), "real")
@@ -851,6 +958,10 @@ def so_setup(ctx):
     g.ps, g.ys, g.xs = ps, ys, xs
     g.sy, g.sx = ctx.fresh("shift_row", "int"), ctx.fresh("shift_col", "int")
     g.coord = (cy, cx)
+    om = ctx.fresh_arr("origin_measured", (N, 2), "real")  # the measured origins of an earlier calculate_origin(): read-only here
+    om.as_type = torch.Tensor
+    me.fields["_origin_measured"] = om
+    add_stale_state(ctx, me, g, ["_shifted_tensor", "_detector_transpose", "_detector_rotation_deg"])
     g.fields0 = dict(me.fields)
     g.mode = mode
     return NS(self=me, origin_coordinate=(cy, cx), max_batch_size=opt_int(ctx, "max_batch_size"), param_values={"mode": mode}, g=g,
@@ -858,7 +969,9 @@ def so_setup(ctx):
 
 
 def so_requires(s):
-    g = s.g
+    g = s.get("g")
+    if g is None or g.weak:  # call sites / the any-shift view: no claim about the VALUES of the shifted patterns, so no value precondition
+        return [("max_batch_size>=1", lift(s.max_batch_size) >= 1)] if s.max_batch_size is not None else []
     r = [("detector-larger-than-one-pixel (H,W>1: the grid normalisation divides by H-1, W-1)", AND(g.H.t >= 2, g.W.t >= 2))]
     if s.max_batch_size is not None:
         r.append(("max_batch_size>=1", lift(s.max_batch_size) >= 1))
@@ -881,6 +994,9 @@ def so_loop_inv(s):
     done = zmin(lift(s.k) * B, lift(g.N))
     st = s.shifted_tensor_3d
     out = []
+    stored = [g.T, g.of, g.me.fields.get("_origin_measured")]
+    if g.weak:
+        return [("frame:tensor-and-stored-origins-not-written", unwritten_in_loop(s, "shift", stored))]
     sg = s.get("shifted_grid")
     if sg is not None and s.get("batch_idx") is not None:
         # stepping stones (only after the body has run): facts about the sampling grid of the current batch at p*, (y*, x*)
@@ -903,7 +1019,7 @@ def so_loop_inv(s):
             ]
     out += [
         ("pattern-p*-is-rolled-once-its-batch-is-done", implies(g.ps.t < done, lift(st.fn(g.ps.t, z3.IntVal(0), g.ys.t, g.xs.t)) == so_rolled(g))),
-        ("frame:tensor-and-fitted-origins-not-written", g.T.writes == 0 and g.of.writes == 0),
+        ("frame:tensor-and-stored-origins-not-written", unwritten_in_loop(s, "shift", stored)),
     ]
     return out
 
@@ -914,29 +1030,207 @@ def so_after(s):
     s.ctx.prove("loop-exit:all-rows-done:min(kB,N)=N", zmin(lift(s.k) * B, lift(g.N)) == lift(g.N), kind="hint")
 
 
+def so_modifies(ctx, s):
+    T = s.self.fields["_tensor"]
+    st = ctx.fresh_arr("shifted_tensor", tuple(T.shape), "real")
+    st.as_type = torch.Tensor
+    s.self.fields["_shifted_tensor"] = st
+
+
 def so_ensures(s):
+    if s.mode == "apply":
+        return []
     g = s.g
     f = s.self.fields
     st = f["_shifted_tensor"]
     T = g.T
     shape_ok = isinstance(st, SymArr) and st.ndim == T.ndim and AND(*[lift(a) == lift(b) for a, b in zip(st.shape, T.shape)])
-    got = lift(pattern_of(st.fn, g.lead, g.ps.t)(g.ys.t, g.xs.t))
+    if g.weak:
+        value = []
+    else:
+        got = lift(pattern_of(st.fn, g.lead, g.ps.t)(g.ys.t, g.xs.t))
+        value = [("shifted[p*][y*,x*]=input[p*][(y*+s_row) mod H,(x*+s_col) mod W]  (circular roll, origin -> target coordinate)", got == so_rolled(g))]
     return [
         ("shifted_tensor-has-the-dataset-shape", shape_ok),
-        ("shifted[p*][y*,x*]=input[p*][(y*+s_row) mod H,(x*+s_col) mod W]  (circular roll, origin -> target coordinate)", got == so_rolled(g)),
+        *value,
         ("returns-self", s.result is s.self),
         ("frame:only-_shifted_tensor-changed", set(f) == set(g.fields0) and all(f[k] is g.fields0[k] for k in g.fields0 if k != "_shifted_tensor")),
         ("frame:tensor-and-fitted-origins-not-written", g.T.writes == 0 and g.of.writes == 0 and g.A.writes == 0),
-    ]
+    ] + stored_state_frame(s.self, g, {"_shifted_tensor"})
+
+
+_KEPT = lambda s: None  # NOT havocked: the invariant clause `frame:...-not-written` says the body leaves it alone (a write fails that clause)
+_SO_LOOPS = {0: LoopSpec(inv=so_loop_inv, after=so_after, havoc={
+    "shifted_tensor_3d": lambda s: havoc_array(s.ctx, s.shifted_tensor_3d, "shifted_tensor_3d"),
+    "origin_fitted": _KEPT, "tensor_3d": _KEPT, "self._origin_fitted": _KEPT, "self._origin_measured": _KEPT, "self._tensor": _KEPT})}
+
+
+def _so_no_fit(s):
+    g = s.get("g")
+    return (g.of if g is not None else s.self.fields.get("_origin_fitted")) is None
 
 
 C_SHIFT = Contract(
     f"{OM}:CenterOfMassOriginModel.shift_origin_to", setup=so_setup, requires=so_requires, ensures=so_ensures,
-    raises={ValueError: lambda s: s.g.of is None},
-    loops={0: LoopSpec(inv=so_loop_inv, after=so_after, havoc={"shifted_tensor_3d": lambda s: havoc_array(s.ctx, s.shifted_tensor_3d, "shifted_tensor_3d")})},
+    raises={ValueError: _so_no_fit}, loops=_SO_LOOPS,
 )
+C_SHIFT.tag = "roll"
+# second view of the same function, used at call sites: ANY real shifts, any detector size - shape, frame, raise condition only
+C_SHIFT_ANY = Contract(
+    f"{OM}:CenterOfMassOriginModel.shift_origin_to", setup=lambda ctx: so_setup(ctx, weak=True), requires=so_requires, ensures=so_ensures,
+    raises={ValueError: _so_no_fit}, loops=_SO_LOOPS, modifies=so_modifies, result=lambda ctx, s: s.self,
+)
+C_SHIFT_ANY.tag = "any-shift"
 
-CONTRACTS = [C_SB_INIT, C_SB_ITER, C_SET_MEASURED, C_SET_FITTED, C_CALC, C_FITBG, C_SHIFT, C_GETCOM, C_FITORIGIN, C_SIC_VEC, C_SIC_LOOP]
+# ------------------------------------------------------------------------------------------------
+# CenterOfMassOriginModel.estimate_detector_rotation / _estimate_detector_rotation:
+# they only READ the stored origins.  The property says origin_measured IS the intensity-weighted mean coordinate and that a
+# later fit is a fit of THOSE origins - so every workflow step that is not calculate_origin must leave them unwritten
+# (reshape / view results alias the stored tensor: a write through them is a write into the stored origins).
+# ------------------------------------------------------------------------------------------------
+
+
+def edh_setup(ctx):
+    Rx, Ry, A = ctx.fresh("Rx", "int"), ctx.fresh("Ry", "int"), ctx.fresh("A", "int")
+    for d in (Rx, Ry, A):
+        ctx.assume(d.t >= 1)
+    cn = ctx.fresh_arr("com_normalized", (Rx, Ry, 2), "real")
+    ang = ctx.fresh_arr("rotation_angles_rad", (A, 1, 1), "real")
+    cn.as_type = ang.as_type = torch.Tensor
+    return NS(com_normalized=cn, rotation_angles_rad=ang)
+
+
+def _edh_count(s):
+    a = s.rotation_angles_rad
+    return a.shape[0]
+
+
+def edh_ensures(s):
+    r = s.result
+    return [("one-curl-value-per-angle", isinstance(r, SymArr) and r.ndim == 1 and lift(r.shape[0]) == lift(_edh_count(s)))] + \
+        frame_clauses(s, s.old.frame, {"com_normalized": "normalised-origins", "rotation_angles_rad": "angles"})
+
+
+def edh_result(ctx, s):
+    r = ctx.fresh_arr("rotation_curl", (_edh_count(s),), "real")
+    r.as_type = torch.Tensor
+    return r
+
+
+C_EDR_HELPER = Contract(f"{OM}:CenterOfMassOriginModel._estimate_detector_rotation", setup=edh_setup, ensures=edh_ensures, result=edh_result,
+                        snapshot=lambda s: NS(frame=frame_snapshot(s, ["com_normalized", "rotation_angles_rad"])))
+
+
+def ed_setup(ctx):
+    me, g = com_model(ctx, measured=True, fitted=True)
+    ang = None
+    if ctx.branch(ctx.fresh("rotation_angles_given", "bool").t):
+        A = ctx.fresh("A", "int")
+        ctx.assume(A.t >= 1)
+        ang = ctx.fresh_arr("rotation_angles_deg", (A,), "real")
+        ang.as_type = torch.Tensor
+    add_stale_state(ctx, me, g, ["_shifted_tensor", "_detector_transpose", "_detector_rotation_deg"])
+    return NS(self=me, rotation_angles_deg=ang, g=g, case=g.case + (",angles" if ang is not None else ",default-angles"))
+
+
+def ed_requires(s):
+    # reshape((Rx, Ry, 2)) of the (num_dps, 2) origins: the scan must be the two leading axes of a 4-D dataset
+    g = s.get("g") or model_view(s.self)
+    return [("4-D-dataset", len(g.lead) == 2), ("measured-and-fitted-origins-are-set", g.om is not None and g.of is not None)]
+
+
+def ed_ensures(s):
+    if s.mode == "apply":
+        return []
+    g = s.g
+    f = s.self.fields
+    tr, rot = f.get("_detector_transpose"), f.get("_detector_rotation_deg")
+    out = [
+        ("returns-self", s.result is s.self),
+        ("sets-a-boolean-transpose-flag-and-a-real-rotation-angle", isinstance(tr, bool) and (isinstance(rot, Sym) and rot.is_real or isinstance(rot, float))),
+        ("origin_measured-still-holds-the-measured-origins (same tensor, unwritten)",
+         f["_origin_measured"] is g.om and g.om.writes == 0 and g.om.fn is g.omfn),
+        ("origin_fitted-still-holds-the-fitted-origins (same tensor, unwritten)",
+         f["_origin_fitted"] is g.of and g.of.writes == 0 and g.of.fn is g.offn),
+        ("frame:tensor-and-dataset-not-written", g.T.writes == 0 and g.A.writes == 0),
+    ] + stored_state_frame(s.self, g, {"_detector_transpose", "_detector_rotation_deg"})
+    if s.rotation_angles_deg is not None:
+        out += frame_clauses(s, s.old.frame, {"rotation_angles_deg": "rotation-angles"})
+    return out
+
+
+def ed_modifies(ctx, s):
+    s.self.fields["_detector_transpose"] = bool(ctx.branch(ctx.fresh("detector_transpose", "bool").t))
+    s.self.fields["_detector_rotation_deg"] = ctx.fresh("detector_rotation_deg", "real")
+
+
+C_EDR = Contract(f"{OM}:CenterOfMassOriginModel.estimate_detector_rotation", setup=ed_setup, requires=ed_requires, ensures=ed_ensures,
+                 modifies=ed_modifies, result=lambda ctx, s: s.self,
+                 snapshot=lambda s: NS(frame=frame_snapshot(s, ["rotation_angles_deg"])))
+
+# ------------------------------------------------------------------------------------------------
+# CenterOfMassOriginModel.forward : the whole workflow on one object (the four steps are used THROUGH THEIR CONTRACTS).
+# Whatever optional steps run after calculate_origin, the stored measured origins are the property's CoM array.
+# ------------------------------------------------------------------------------------------------
+
+
+def fw_setup(ctx):
+    me, g = com_model(ctx)
+    flags = {}
+    for n in ("fit_origin_bkg", "estimate_detector_orientation", "shift_to_origin"):
+        flags[n] = bool(ctx.branch(ctx.fresh(n, "bool").t))
+    fm = "constant" if ctx.branch(ctx.fresh("fit_method_is_constant", "bool").t) else "plane"
+    add_stale_state(ctx, me, g, ["_origin_measured", "_origin_fitted", "_shifted_tensor", "_detector_transpose", "_detector_rotation_deg"])
+    g.flags, g.fm = flags, fm
+    cy, cx = ctx.fresh("coord_row", "real"), ctx.fresh("coord_col", "real")
+    on = "".join(k[0] for k, v in flags.items() if v) or "-"
+    return NS(self=me, max_batch_size=opt_int(ctx, "max_batch_size"), probe_positions=None, fit_method=fm, rotation_angles_deg=None,
+              origin_coordinate=(cy, cx), g=g, case=f"{g.case},{fm},steps:{on}",
+              param_values=dict(mode="bilinear", **flags))
+
+
+def fw_requires(s):
+    r = [("4-D-dataset (scan positions inferred from the two leading axes)", len(s.g.lead) == 2)]
+    if s.max_batch_size is not None:
+        r.append(("max_batch_size>=1", lift(s.max_batch_size) >= 1))
+    return r
+
+
+def fw_ensures(s):
+    g = s.g
+    f = s.self.fields
+    om = f["_origin_measured"]
+    N = lift(g.N)
+    p, c = I("p"), I("c")
+    sr, sc = co_spec(g, p)
+    inr = AND(p >= 0, p < N)
+    fl = g.flags
+    out = [
+        ("returns-self", s.result is s.self),
+        ("origin_measured-shape=(num_dps,2)", isinstance(om, SymArr) and om.ndim == 2 and AND(lift(om.shape[0]) == N, lift(om.shape[1]) == 2)),
+        ("after-the-whole-workflow:origin_measured[p,0]=sum(I*row)/sum(I)", forall(p, implies(inr, lift(om.fn(p, z3.IntVal(0))) == sr))),
+        ("after-the-whole-workflow:origin_measured[p,1]=sum(I*col)/sum(I)", forall(p, implies(inr, lift(om.fn(p, z3.IntVal(1))) == sc))),
+        ("frame:tensor-and-dataset-not-written", g.T.writes == 0 and g.A.writes == 0 and f["_tensor"] is g.T and f["_dataset"] is g.ds),
+    ]
+    changed = {"_origin_measured"}
+    if fl["fit_origin_bkg"]:
+        changed.add("_origin_fitted")
+        of = f["_origin_fitted"]
+        out.append(("origin_fitted-shape=(num_dps,2)", isinstance(of, SymArr) and of.ndim == 2 and AND(lift(of.shape[0]) == N, lift(of.shape[1]) == 2)))
+        if g.fm == "constant":
+            mean = lm.reduce_mean(com_array(g), 0)
+            out.append(("constant-fit=mean-of-the-CoM-origins (not of anything a later step left behind)",
+                        forall([p, c], implies(AND(inr, c >= 0, c < 2), lift(of.fn(p, c)) == lift(mean.fn(c))))))
+        if fl["estimate_detector_orientation"]:
+            changed |= {"_detector_transpose", "_detector_rotation_deg"}
+        if fl["shift_to_origin"]:
+            changed.add("_shifted_tensor")
+    return out + stored_state_frame(s.self, g, changed)
+
+
+C_FORWARD = Contract(f"{OM}:CenterOfMassOriginModel.forward", setup=fw_setup, requires=fw_requires, ensures=fw_ensures)
+
+CONTRACTS = [C_SB_INIT, C_SB_ITER, C_SET_MEASURED, C_SET_FITTED, C_CALC, C_FITBG, C_SHIFT, C_SHIFT_ANY, C_EDR_HELPER, C_EDR, C_FORWARD, C_GETCOM, C_FITORIGIN, C_SIC_VEC, C_SIC_LOOP]
 
 # ------------------------------------------------------------------------------------------------
 # property-level lemmas (from the contract statements alone)
@@ -1413,6 +1707,116 @@ def fam_models_agree(tier="quick", seed=0):
             yield dict(shape=list(sh), max_batch_size=b, seed=seed + sh[2])
 
 
+@_guard
+def rt_workflow(inp):
+    """A HISTORY of workflow steps on one model object: after every step the stored measured origins are still the
+    intensity-weighted mean coordinates, a step that is not a fit leaves the fitted origins alone, and a repeated / later fit is
+    a fit of the measured origins (not of something an intermediate step left behind)."""
+    shape = tuple(inp["shape"])
+    arr = _data(shape, inp["seed"]).astype(np.float32)
+    m = _origin_model(arr)
+    er, ec = _com64(arr.reshape((-1,) + shape[-2:]))
+    oracle = np.stack([er, ec], -1)
+    before = m.tensor.clone()
+    problems, klass = [], None
+    first_plane, measured = None, False
+    for step in inp["steps"]:
+        of_prev = None if m.origin_fitted is None else m.origin_fitted.clone()
+        name, _, arg = step.partition(":")
+        if name == "calc":
+            m.calculate_origin(max_batch_size=inp.get("max_batch_size"))
+            measured = True
+        elif name == "fit":
+            m.fit_origin_background(fit_method=arg)
+        elif name == "estimate":
+            m.estimate_detector_rotation()
+        elif name == "shift":
+            m.shift_origin_to(max_batch_size=inp.get("max_batch_size"))
+        elif name == "forward":
+            m.forward(max_batch_size=inp.get("max_batch_size"), fit_method=arg or "plane")
+            measured = True
+        elif name == "newdata":  # the same object gets OTHER patterns (tensor setter): everything measured so far is stale
+            arr = _data(shape, inp["seed"] + 100).astype(np.float32)
+            m.tensor = torch.tensor(arr)
+            er, ec = _com64(arr.reshape((-1,) + shape[-2:]))
+            oracle = np.stack([er, ec], -1)
+            before = m.tensor.clone()
+            measured, first_plane = False, None
+            continue
+        got = None if m.origin_measured is None else m.origin_measured.numpy().astype(np.float64)
+        if measured and (got is None or got.shape != oracle.shape or not np.abs(got - oracle).max() <= 2e-3):
+            d = "missing" if got is None or got.shape != oracle.shape else f"off by {np.abs(got - oracle).max():.3g}"
+            problems.append(f"after `{step}`: origin_measured is no longer (sum I*row/sum I, sum I*col/sum I) ({d})")
+            klass = klass or f"origin_measured-overwritten-by-{name}"
+        of = None if m.origin_fitted is None else m.origin_fitted.numpy().astype(np.float64)
+        if name in ("fit", "forward"):
+            method = arg or "plane"
+            if method == "constant":
+                exp = np.broadcast_to(oracle.mean(0), oracle.shape)
+                if of is None or not np.abs(of - exp).max() <= 2e-3:
+                    problems.append(f"after `{step}`: constant fit is not the mean of the measured origins")
+                    klass = klass or "later-fit-not-of-the-measured-origins"
+            else:
+                if first_plane is None:
+                    first_plane = of
+                elif of is None or not np.abs(of - first_plane).max() <= 2e-3:
+                    problems.append(f"after `{step}`: repeating the plane fit gives a different surface (max diff {np.abs(of - first_plane).max():.3g})")
+                    klass = klass or "later-fit-not-of-the-measured-origins"
+        elif of_prev is not None and (of is None or not np.array_equal(of, of_prev.numpy().astype(np.float64))):
+            problems.append(f"after `{step}`: origin_fitted changed although no fit ran")
+            klass = klass or f"origin_fitted-overwritten-by-{name}"
+        if not bool((m.tensor == before).all()):
+            problems.append(f"after `{step}`: the pattern tensor was modified")
+            klass = klass or f"tensor-overwritten-by-{name}"
+        if problems:
+            break
+    r = _res(problems, "stored measured origins survive every later workflow step; later fits are fits of those origins; tensor untouched")
+    r["klass"] = klass or "none"
+    return r
+
+
+def fam_workflow(tier="quick", seed=0):
+    seqs = [
+        ["calc", "fit:plane", "estimate"],
+        ["calc", "fit:constant", "estimate", "fit:constant"],
+        ["calc", "fit:plane", "estimate", "fit:plane"],
+        ["calc", "fit:plane", "shift", "estimate", "shift", "fit:constant"],
+        ["forward"],
+        ["forward", "fit:constant"],
+        ["forward", "forward"],
+        ["calc", "fit:constant", "calc", "fit:constant"],
+        ["forward:constant", "newdata", "forward:constant"],
+        ["calc", "fit:constant", "estimate", "shift", "newdata", "calc", "fit:constant"],
+    ]
+    for sh in [(3, 4, 4, 5), (4, 3, 5, 4)] + ([(5, 6, 4, 6)] if tier == "thorough" else []):
+        for b in (None, 5):
+            for q in seqs:
+                yield dict(shape=list(sh), steps=q, max_batch_size=b, seed=seed + sh[0])
+
+
+def fam_workflow_estimate(tier="quick", seed=0):
+    for inp in fam_workflow(tier, seed):
+        if any(x.startswith(("estimate", "forward")) for x in inp["steps"]):
+            yield inp
+
+
+def with_histories(rt, fam):
+    """Run-time oracle of a workflow method = its single-call oracle + the history oracle (inputs carrying `steps`)."""
+    def rt2(inp):
+        return rt_workflow(inp) if "steps" in inp else rt(inp)
+
+    def fam2(tier="quick", seed=0):
+        yield from (fam(tier, seed) if _wants_tier(fam) else fam())
+        yield from fam_workflow(tier, seed)
+    return rt2, fam2
+
+
+def _wants_tier(f):
+    import inspect
+
+    return len(inspect.signature(f).parameters) >= 2
+
+
 def rt_batcher(inp):
     from quantem.diffractive_imaging.ptycho_utils import SimpleBatcher
 
@@ -1505,7 +1909,7 @@ C_SIC_VEC.concretize, C_SIC_LOOP.concretize = conc_sic(True), conc_sic(False)
 # tiny helpers / one-line properties interpreted from their source inside the functions under contract (listed in evidence)
 _INL_COM = [q for q in INLINE if "CenterOfMassOriginModel" in q or ":Dataset." in q]
 C_SB_INIT.inline = {f"{PU}:SimpleBatcher.rng"}
-for _c in (C_SET_MEASURED, C_SET_FITTED, C_CALC, C_FITBG, C_SHIFT):
+for _c in (C_SET_MEASURED, C_SET_FITTED, C_CALC, C_FITBG, C_SHIFT, C_SHIFT_ANY, C_EDR, C_FORWARD):
     _c.inline = set(_INL_COM)
 C_GETCOM.inline = {f"{AF}:sum", f"{AF}:match_device", f"{AF}:validate_arraylike"}
 for _c in (C_SIC_VEC, C_SIC_LOOP):
@@ -1514,11 +1918,15 @@ for _c in (C_SIC_VEC, C_SIC_LOOP):
 for _c, _rt, _fam in (
     (C_SB_INIT, rt_batcher, fam_batcher), (C_SB_ITER, rt_batcher, fam_batcher),
     (C_SET_MEASURED, rt_setter, fam_setter), (C_SET_FITTED, rt_setter, fam_setter),
-    (C_CALC, rt_calc, fam_calc), (C_FITBG, rt_fit_background, fam_fit_background), (C_SHIFT, rt_shift, fam_shift),
+    (C_CALC, rt_calc, fam_calc), (C_FITBG, rt_fit_background, fam_fit_background), (C_SHIFT, rt_shift, fam_shift), (C_SHIFT_ANY, rt_shift, fam_shift),
+    (C_FORWARD, rt_workflow, fam_workflow_estimate),
+    (C_EDR, rt_workflow, fam_workflow_estimate), (C_EDR_HELPER, rt_workflow, fam_workflow_estimate),
     (C_GETCOM, rt_getcom, fam_getcom), (C_FITORIGIN, rt_fit_origin, fam_fit_origin_constant),
     (C_SIC_VEC, rt_sic, fam_sic(True)), (C_SIC_LOOP, rt_sic, fam_sic(False)),
 ):
     _c.rt, _c.rt_family = _rt, _fam
+for _c in (C_CALC, C_FITBG, C_SHIFT, C_SHIFT_ANY):
+    _c.rt, _c.rt_family = with_histories(_c.rt, _c.rt_family)
 
 BOUNDED = [
     Bounded.from_rt("calculate_origin vs float64 oracle, every batch size", rt_calc, fam_calc, "5 dataset shapes (3-D and 4-D, non-square), batch sizes None,1,2,3,n-1,n,n+2"),
@@ -1531,6 +1939,8 @@ BOUNDED = [
                     "2 shapes x {all-True mask, mask=None, partial mask} x 5 surface/function pairs (curve_fit is outside the deductive reach)", klass=_fit_class),
     Bounded.from_rt("PLANE FITS (stand-in for proof): fit_origin_background PCA plane / constant on exact surfaces", rt_fit_background, fam_fit_background,
                     "3 scan shapes x {inferred, explicit positions} x {constant, plane} (torch.linalg.eigh is outside the deductive reach)"),
+    Bounded.from_rt("workflow histories on one model object (calculate / fit / estimate / shift / forward, repeated)", rt_workflow, fam_workflow,
+                    "2 scan shapes x 2 batch sizes x 10 step sequences (incl. new data on the same object): measured origins survive every later step, later fits are fits of them", klass=_klass_res),
     Bounded.from_rt("shift_origin_to with integer origins vs numpy.roll", rt_shift, fam_shift, "4 shapes x batch sizes None,1,2,n x bilinear/nearest, origins in [-H,2H)x[-W,2W), one shared origin with non-zero target"),
 ]
 
